@@ -137,17 +137,21 @@ Section D.
                 end in
     flat_map (fun b => map (row_of h dom sel) (bind_selected h dom sel b)) rows.
 
-  (* a history of evaluations of ONE query object: each is consumed completely (None) or abandoned / aborted after n results (Some n).
-     [leftover i] is whatever state the i-th evaluation leaves in the operators' seen sets when it ends; An.evaluate / The.evaluate
-     reset it in a finally clause iff Generated.evaluation_resets_dedup_state *)
-  Fixpoint history_rows (leftover : nat -> dst) (sel : list term) (c : option cond) (steps : list (option nat)) (i : nat) (s : dst)
+  (* a history of evaluations of ONE query object: each is consumed completely (None) or abandoned / aborted after n results (Some n);
+     an abandoned one may stay REFERENCED ([kept] = true: its generator is suspended, its finally clause has not run).
+     [leftover i] is whatever state the i-th evaluation leaves in the operators' seen sets when it stops; An.evaluate / The.evaluate
+     reset it in a finally clause iff Generated.evaluation_resets_dedup_state, and before starting iff
+     Generated.evaluation_resets_dedup_state_at_start *)
+  Fixpoint history_rows (leftover : nat -> dst) (sel : list term) (c : option cond) (steps : list (option nat * bool)) (i : nat) (s : dst)
     : list (list (list val)) :=
     match steps with
     | [] => []
-    | k :: rest =>
-        let rows := run_queryD_from s sel c in
+    | (k, kept) :: rest =>
+        let s0 := if evaluation_resets_dedup_state_at_start then DL else s in
+        let rows := run_queryD_from s0 sel c in
         (match k with None => rows | Some n => firstn n rows end)
-          :: history_rows leftover sel c rest (S i) (if evaluation_resets_dedup_state then DL else leftover i)
+          :: history_rows leftover sel c rest (S i)
+               (if kept then leftover i else if evaluation_resets_dedup_state then DL else leftover i)
     end.
 
   Definition run_queryD (sel : list term) (c : option cond) : list (list val) :=
